@@ -278,6 +278,9 @@ func bfgs(f_ Objective, f ObjectiveInSitu, x0 Vector, H0 Matrix, epsilon Epsilon
       if err := f.Differentiate(x2, g2, y2); err != nil {
         return x1, fmt.Errorf("invalid value: %s", err)
       }
+      if math.IsNaN(y2.GetFloat64()) || math.IsNaN(t1.Vnorm(g2).GetFloat64()) {
+        return x1, fmt.Errorf("NaN value detected")
+      }
       // execute hook if available
       if hook.Value != nil && hook.Value(x2, g2, y2) {
         break
